@@ -75,8 +75,10 @@ func errOrNil(err error) interface{} {
 }
 
 // forest: {"regs": n, "ops": [...]}; ops on registers holding configs:
-//   new r from opts | merge r from opts | set r name idx val opts | setchild r name idx child opts | remove r name idx opts
-//   child r name idx to opts | read r what [name idx] | diff r r2
+//
+//	new r from opts | merge r from opts | set r name idx val opts | setchild r name idx child opts | remove r name idx opts
+//	child r name idx to opts | read r what [name idx] | diff r r2
+//
 // after every op: its error, and the observation of every register
 func kForest(c J) interface{} {
 	n := numInt(c["regs"], 4)
